@@ -4,11 +4,11 @@ CONSTANTS
   Ops <- Q_Ops
   Scheds = {"sync"}
   MaxDepth = 1
-  MaxRuns = 1
+  MaxRuns = 0
   MaxTasks = 12
   FftNeedsOneChunk = TRUE
   ChirpKeyByChannel = TRUE
   EagerOps <- None_
   NumpyOps <- None_
-CHECK_DEADLOCK FALSE
 INVARIANT EmitLeaf
+CHECK_DEADLOCK FALSE
